@@ -624,3 +624,85 @@ def unkspans(ctx):
            "prefix lengths run over 1..=min(length, run)" if oklo and okhi else
            "prefix lengths run over %s..%s%s: the property asks for 1..=min(length, run)"
            % (show(lo), "=" if kind == "incl" else "", show(hi)[:70]))
+
+
+def charrange(ctx):
+    """CHARRANGE (C03, C12): `A character's categories come from the last char.def range line
+    covering it (inclusive bounds)`.
+      * parse_char_range stores start = lower bound and end = upper bound + 1 (exclusive);
+      * from_reader overwrites exactly the code points [r.start, r.end) of the table, range by
+        range in file order (later lines win by overwriting).
+    The window of an iterator chain is computed symbolically: take(n).skip(m) visits [m, n),
+    skip(m).take(n) visits [m, m + n), a slice [a..b] visits [a, b)."""
+    crate = ctx.facts("A").lib
+    E = Effects(crate)
+    P_RD = "vibrato::dictionary::character::CharProperty::from_reader"
+    P_PR = "vibrato::dictionary::character::CharProperty::parse_char_range"
+    # --- parser: the CharRange aggregate
+    fa = E.fa(P_PR)
+    S = Sym(E, fa)
+    agg = None
+    for b, i, s in fa.stmts():
+        rv = s.get("rv")
+        if rv and rv["k"] == "agg" and str(rv.get("adt", "")).endswith("CharRange"):
+            agg = dict(zip(rv["fields"], [S.operand(o) for o in rv["ops"]]))
+    if agg is None:
+        raise EngineError("CHARRANGE: construction of CharRange not found")
+    st, sc = _lin(agg["start"])
+    et, ec = _lin(agg["end"])
+    first_is_radix = "from_str_radix" in st
+    ok = sc == 0 and ec == 1 and first_is_radix and "from_str_radix" in et or \
+        (sc == 0 and ec == 1 and first_is_radix and ("phi" in et or "var" in et))
+    ctx.ob("CHARRANGE", "%s|end-is-upper-bound-plus-one" % P_PR, ok, fn_loc(crate, P_PR),
+           "CharRange{start: lower bound, end: upper bound + 1}" if ok else
+           "CharRange is built with start offset %+d and end offset %+d from the parsed bounds "
+           "(expected +0 / +1): the upper bound is not inclusive" % (sc, ec))
+    # --- table fill
+    fa = E.fa(P_RD)
+    S = Sym(E, fa)
+    fills = []
+    for nb, nt in fa.calls():
+        if not any(strip_generics(x).endswith("::next") for x in callee_paths(nt)):
+            continue
+        # chain of adaptors back to chr2inf
+        chain = []
+        cur = nt["args"][0]
+        for _ in range(12):
+            o = fa.origin(cur)
+            if o[0] != "call":
+                break
+            nm = sorted({strip_generics(x).rsplit("::", 1)[-1] for x in callee_paths(o[2])})[0]
+            chain.append((nm, [S.operand(a) for a in o[2]["args"][1:]]))
+            if not o[2]["args"]:
+                break
+            cur = o[2]["args"][0]
+        names_ = [c[0] for c in chain]
+        if "iter_mut" not in names_ or not ({"take", "skip"} & set(names_)):
+            continue
+        lo, hi = ("0", 0), None
+        # apply adaptors innermost first
+        for nm, a in reversed(chain):
+            if nm == "skip":
+                t, c = _lin(a[0])
+                lo = (t, c) if lo == ("0", 0) else ("%s+%s" % (lo[0], t), lo[1] + c)
+                if hi is not None and hi[2] == "len":
+                    hi = (hi[0], hi[1], "len-skipped")   # take(n).skip(m): upper bound stays n
+            elif nm == "take":
+                t, c = _lin(a[0])
+                if lo == ("0", 0):
+                    hi = (t, c, "abs")
+                else:
+                    hi = ("%s+%s" % (lo[0], t), lo[1] + c, "rel")
+        fills.append((nb, lo, hi, names_))
+    ctx.floor("CHARRANGE", "range fills of the character table", len(fills), 1)
+    for k, (nb, lo, hi, names_) in enumerate(fills):
+        oklo = lo[0].endswith(".start") and lo[1] == 0
+        okhi = hi is not None and hi[0].endswith(".end") and hi[1] == 0 and hi[2] in ("abs", "len-skipped")
+        if hi is not None and hi[2] == "rel":
+            # skip(start).take(n): n must be end - start
+            okhi = False
+        ctx.ob("CHARRANGE", "%s|fill|%d" % (P_RD, k), oklo and okhi, fa.loc(nb),
+               "the table is overwritten for the code points [r.start, r.end)" if oklo and okhi else
+               "the table is overwritten for [%s%+d, %s) (adaptors %s): a range line changes the "
+               "category of a code point outside its inclusive bounds (or misses its last one)"
+               % (lo[0], lo[1], ("%s%+d" % (hi[0], hi[1])) if hi else "?", names_))
